@@ -523,3 +523,72 @@ package rueidis
 //@   modifies *
 //@   assert [C28 retry-is-considered-only-for-an-enabled-retryable-command-after-a-retryable-error] at WaitOrSkipRetry: c.retry && cmd.IsRetryable() && returned(isRetryable) && arg2 == attempts
 //@   loop 0: repeat-only-if [C28 resend-only-after-expiry-or-an-approved-retry] returned(Error) == errConnExpired || (c.retry && cmd.IsRetryable() && returned(isRetryable) && returned(WaitOrSkipRetry))
+
+// cluster batches: a reply is queued for another round (under the lock) in retry mode only when retries are enabled,
+// the command is retryable and RetryDelay answered with a non-negative delay; every round of DoMulti / DoMultiCache starts
+// with "no retry pending" so that a delay granted in an earlier round cannot approve a later one
+//@ immutable [C28] clusterClient retry
+//@ func clusterClient.doresultfn
+//@   modifies *
+//@   assert [C28 queued-in-retry-mode-only-with-a-granted-delay] at Lock: mode == RedirectRetry ==> (c.retry && cm.IsRetryable() && retryDelay >= 0 && retryDelay == returned(RetryDelay))
+//@ func clusterClient.resultcachefn
+//@   modifies *
+//@   assert [C28 queued-in-retry-mode-only-with-a-granted-delay] at Lock: mode == RedirectRetry ==> (c.retry && retryDelay >= 0 && retryDelay == returned(RetryDelay))
+//@ func clusterClient.DoMulti
+//@   modifies *
+//@   assert [C28 every-round-starts-with-no-retry-pending] at Add: retries.RetryDelay == -1
+//@ func clusterClient.DoMultiCache
+//@   modifies *
+//@   assert [C28 every-round-starts-with-no-retry-pending] at Add: retries.RetryDelay == -1
+
+// ---------------------------------------------------------------------------------------------
+// C07 — cached replies expire at the earlier of the client TTL and the server PTTL (message.go, lru.go).
+// The expiry of a cached message is the 56-bit little-endian number kept in RedisMessage.ttl (0 = none).
+//@ func RedisMessage.setExpireAt
+//@   mode bv
+//@   modifies *m
+//@   ensures [C07 expiry-is-stored-exactly] (0 <= pttl && pttl < 72057594037927936) ==> m.getExpireAt() == pttl
+//@   ensures [C07 nothing-else-changes] m.typ == old(m.typ) && m.intlen == old(m.intlen) && m.bytes == old(m.bytes) && m.array == old(m.array) && m.attrs == old(m.attrs)
+
+//@ func RedisMessage.relativePTTL
+//@   ensures [C07 remaining-life-is-expiry-minus-now] result == m.getExpireAt() - now.UnixMilli()
+
+//@ func RedisMessage.CachePXAT
+//@   ensures [C07 pxat-is-the-stored-expiry] (m.getExpireAt() == 0 ==> result == -1) && (m.getExpireAt() != 0 ==> result == m.getExpireAt())
+//@ func RedisMessage.CachePTTL
+//@   modifies *
+//@   ensures [C07 pttl-is-the-stored-expiry-minus-now-floored-at-zero where-defined] (m.getExpireAt() == 0 ==> result == -1) && (m.getExpireAt() != 0 ==> result == max(m.getExpireAt() - returned(UnixMilli), 0))
+//@ func RedisMessage.CacheTTL
+//@   modifies *
+//@   ensures [C07 ttl-is-pttl-rounded-up-to-seconds where-defined] (returned(CachePTTL) <= 0 ==> ttl == returned(CachePTTL)) && (returned(CachePTTL) > 0 ==> (ttl * 1000 >= returned(CachePTTL) && (ttl - 1) * 1000 < returned(CachePTTL)))
+
+// the LRU store: a reply is handed out as a hit only while its expiry lies in the future; a new in-flight entry expires at
+// request start + the caller's TTL — its own TTL, also inside a batch; when the reply arrives the stored expiry is the
+// earlier of that client expiry and the server's (0 = the server gave none)
+//@ func lru.Flight
+//@   requires 0 <= now.Add(ttl).UnixMilli() && now.Add(ttl).UnixMilli() < 72057594037927936
+//@   modifies *
+//@   ensures [C07 a-hit-has-not-expired] v.typ != 0 ==> v.getExpireAt() > now.UnixMilli()
+//@   assert [C07 a-new-flight-expires-at-start-plus-ttl] at setExpireAt: arg1 == now.Add(ttl).UnixMilli()
+
+//@ func lru.Flights
+//@   option opaque-pkgs=github.com/redis/rueidis/internal/cmds
+//@   modifies *
+//@   assert [C07 a-missed-command-of-a-batch-gets-its-own-ttl] at setExpireAt: arg1 == now.Add(multi[i].TTL).UnixMilli() && 0 <= i && i < len(multi)
+
+//@ func lru.Update
+//@   modifies *
+//@   assert [C07 stored-expiry-is-the-earlier-of-client-and-server] at approximateSize: pxat == value.getExpireAt() && pxat <= cpttl && (pxat == cpttl || (pxat == old(value).getExpireAt() && pxat != 0))
+
+// the reader stamps the server's expiry on the reply before committing it: a PTTL reply of 0 or more (0 included: the key
+// expires now) gives request... arrival time + PTTL; a negative PTTL (no expiry / no key) leaves the reply without a server
+// expiry; the static-TTL path never stamps one. (Update#1: static TTL, Update#2: MGET element, Update#3: single command)
+//@ func pipe._backgroundRead
+//@   option opaque-pkgs=github.com/redis/rueidis/internal/cmds
+//@   modifies *
+//@   let T2 = now.Add(msg.values()[i].intlen * 1000000).UnixMilli()
+//@   let T3 = now.Add(msg.values()[ci-1].intlen * 1000000).UnixMilli()
+//@   assert [C07 static-ttl-replies-carry-no-server-expiry] at Update#1: arg3.getExpireAt() == msg.getExpireAt()
+//@   assert [C07 mget-element-is-stamped-with-arrival-plus-its-pttl] at Update#2: (msg.values()[i].intlen >= 0 && 0 <= T2 && T2 < 72057594037927936) ==> arg3.getExpireAt() == T2
+//@   assert [C07 reply-is-stamped-with-arrival-plus-pttl] at Update#3: (msg.values()[ci-1].intlen >= 0 && 0 <= T3 && T3 < 72057594037927936) ==> arg3.getExpireAt() == T3
+//@   assert [C07 reply-without-server-expiry-is-not-stamped] at Update#3: msg.values()[ci-1].intlen < 0 ==> arg3.getExpireAt() == msg.values()[ci].getExpireAt()
